@@ -488,7 +488,7 @@ impl<T: Same> Same for Vec<T> {
 impl<T: Val> Val for Vec<T> {
     fn gen(rng: &mut Rng, dom: Dom) -> Self {
         let max = dom.max_len();
-        if T::is_zst() && dom.kind != Kind::Tiny && dom.depth == 0 && rng.chance(1, 4) {
+        if T::is_zst() && dom.kind != Kind::Tiny && dom.depth == 0 && !dom.json_safe && rng.chance(1, 4) {
             // zero-sized elements: lengths beyond u32::MAX are free of charge
             let n = match rng.below(4) {
                 0 => (1usize << 32) + rng.below(5),
